@@ -307,7 +307,7 @@ type Rec struct {
 	Status       int
 	ApplyHeight  uint64
 	BoundAt      uint64 // height of the block in which the current account got control (apply / change-account)
-	MaybeRemoved bool // stake reached 0 by a refund: "removed or aborted" — resolved by observation
+	MaybeRemoved bool   // stake reached 0 by a refund: "removed or aborted" — resolved by observation
 	Genesis      bool
 }
 
